@@ -127,6 +127,33 @@ theorem csTimes_in_domain (tMax : ℝ) (h : 0 ≤ tMax) : ∀ t ∈ csTimes tMax
   simp only [min'_real, max'_real, lit_real, Nat.cast_zero]
   exact ⟨le_min (le_max_right _ _) h, min_le_right _ _⟩
 
+/-- every simulated energy can be looked up (for a reflexive equality, as `==` on non-NaN floats) -/
+theorem getResult_of_mem {ε ρ : Type} (eq : ε → ε → Bool) (hrefl : ∀ a, eq a a = true) (es : List ε) (rs : List ρ)
+    (hl : rs.length = es.length) (e : ε) (he : e ∈ es) : ∃ r, getResult eq es rs e = some r := by
+  cases h : getResult eq es rs e with
+  | some r => exact ⟨r, rfl⟩
+  | none =>
+    have := ((getResult_spec eq es rs hl e).2.mp h) e he
+    rw [hrefl e] at this; cases this
+
+/-- **the two tables refer to the same per-energy results**: row `k` of the charge-state table is entry
+`cs` of every column of the abundance-at-time table taken at the `k`-th sampling time (`ts` = the
+sampling times `csTimes t_max`) -/
+theorem tables_consistent {ρ : Type} (z : ℕ) (tMax : ℝ) (h0 : 0 ≤ tMax) (rs : List ρ) (at' : ρ → ℝ → List ℝ) (cs : ℕ) (hcs : cs ≤ z)
+    (ts : List ℝ) (hts : ts = csTimes tMax) :
+    ∃ rows, abundanceOfCs z tMax rs at' cs = some (ts, rows) ∧ rows.length = ts.length ∧
+      ∀ k (hk : k < ts.length) (hk' : k < rows.length),
+        ∃ cols, abundanceAtTime tMax rs at' (ts[k]'hk) = some cols ∧ rows[k]'hk' = cols.map fun c => c.getD cs 0 := by
+  have hdom : ∀ t ∈ ts, 0 ≤ t ∧ t ≤ tMax := by rw [hts]; exact csTimes_in_domain tMax h0
+  have hspec : abundanceOfCs z tMax rs at' cs = some (ts, ts.map fun t => rs.map fun r => (at' r t).getD cs 0) := by
+    rw [hts]; exact (abundanceOfCs_spec z tMax rs at' cs).2 hcs
+  clear hts
+  refine ⟨ts.map fun t => rs.map fun r => (at' r t).getD cs 0, hspec, by simp, ?_⟩
+  intro k hk hk'
+  obtain ⟨hlo, hhi⟩ := hdom _ (List.getElem_mem hk)
+  refine ⟨rs.map fun r => at' r (ts[k]'hk), (abundanceAtTime_spec tMax rs at' _).2 hlo hhi, ?_⟩
+  simp
+
 -- non-vacuity: the comparison of the implementation (`<=` on floats without NaN; here ℕ) is transitive and total
 example : (∀ a b c : ℕ, decide (a ≤ b) → decide (b ≤ c) → decide (a ≤ c) = true) ∧ (∀ a b : ℕ, (decide (a ≤ b) || decide (b ≤ a)) = true) := by
   constructor
